@@ -388,3 +388,15 @@ v('c20-udt-not-built', 'C20', XSD, "    s_udt = nav_one(s_dt).S_UDT[17]()\n    i
 v('c20-scope', 'C20', XSD, "    scope_filter = lambda selected: ooaofooa.is_contained_in(selected, c_c)\n    \n    for o_obj in m.select_many('O_OBJ', scope_filter):", "    scope_filter = lambda selected: True\n    \n    for o_obj in m.select_many('O_OBJ', scope_filter):", 'fire', 'C20-SCOPE',
   'all classes of the model declared')
 v('c20-silent-comment', 'C20', XSD, "    s_cdt = nav_one(s_dt).S_CDT[17]()\n    if s_cdt and s_cdt.Core_Typ in range(1, 6):\n        return s_dt.Name", "    s_cdt = nav_one(s_dt).S_CDT[17]()  # core type?\n    if s_cdt and s_cdt.Core_Typ in range(1, 6):\n        return s_dt.Name", 'silent', '', 'comment')
+
+TL = 'xtuml/tools.py'
+v('c17-backlink-dropped', 'C17', TL, "            prev[2] = next_\n            next_[1] = prev", "            prev[2] = next_", 'fire', 'C17-SHAPE', 'discard leaves the back pointer stale')
+v('c17-pop-wrong-end', 'C17', TL, "        if last:\n            key = self.end[1][0]\n        else:\n            key = self.end[2][0]", "        if last:\n            key = self.end[2][0]\n        else:\n            key = self.end[1][0]", 'fire', 'C17-SHAPE', 'pop takes the wrong end')
+v('c17-add-front', 'C17', TL, "            curr = end[1]\n            curr[2] = end[1] = self.map[key] = [key, curr, end]", "            curr = end[2]\n            curr[1] = end[2] = self.map[key] = [key, end, curr]", 'fire', 'C17-SHAPE', 'add links the new element at the front')
+v('c17-discard-clears-node', 'C17', TL, "            prev[2] = next_\n            next_[1] = prev", "            prev[2] = next_\n            next_[1] = prev\n            node = None", 'silent', '', 'harmless extra local')
+v('c17-discard-resets-own', 'C17', TL, "            key, prev, next_ = self.map.pop(key)\n            prev[2] = next_\n            next_[1] = prev", "            node = self.map.pop(key)\n            key, prev, next_ = node\n            prev[2] = next_\n            next_[1] = prev\n            node[1] = node[2] = None", 'fire', 'C17-', 'discard wipes the removed node: iteration standing on it breaks')
+v('c17-eq-len-only', 'C17', TL, "        return list(self) == list(other)", "        return True", 'fire', 'C17-EQ', 'equality by length only')
+v('c17-iter-backwards', 'C17', TL, "        curr = end[2]\n        while curr is not end:\n            yield curr[0]\n            curr = curr[2]", "        curr = end[1]\n        while curr is not end:\n            yield curr[0]\n            curr = curr[1]", 'fire', 'C17-SHAPE', '__iter__ walks backwards')
+v('c17-first-is-last', 'C17', M, "            return next(iter(self))", "            return next(reversed(self))", 'fire', 'C17-ENDS', 'QuerySet.first returns the last element')
+v('c17-clear-override', 'C17', TL, "    def __len__(self):\n        return len(self.map)", "    def clear(self):\n        self.map = {}\n\n    def __len__(self):\n        return len(self.map)", 'fire', 'C17-MIXINS', 'clear() overridden without resetting the list')
+v('c17-silent-iter-rename', 'C17', TL, "        end = self.end\n        curr = end[2]\n        while curr is not end:\n            yield curr[0]\n            curr = curr[2]", "        sentinel = self.end\n        node = sentinel[2]\n        while node is not sentinel:\n            yield node[0]\n            node = node[2]", 'silent', '', 'renamed locals in __iter__')
